@@ -304,8 +304,7 @@ func (r *Resolver) onStrBin(g *Scope, name string, t *parser.Type, v *parser.Con
 	}()
 	switch v.Type {
 	case parser.ConstType_ConstLiteral:
-		raw := strings.ReplaceAll(v.TypedValue.GetLiteral(), "\"", "\\\"")
-		return fmt.Sprintf(`"%s"`, raw), nil
+		return fmt.Sprintf(`"%s"`, escapeDoubleQuotes(v.TypedValue.GetLiteral())), nil
 	case parser.ConstType_ConstIdentifier:
 		s := v.TypedValue.GetIdentifier()
 		if s == "true" || s == "false" {
@@ -319,6 +318,27 @@ func (r *Resolver) onStrBin(g *Scope, name string, t *parser.Type, v *parser.Con
 	default:
 	}
 	return "", errTypeMissMatch(name, t, v)
+}
+
+// escapeDoubleQuotes escapes the double quotes of a literal for a Go interpreted string.
+// A quote that already follows a backslash (written \" inside a single-quoted literal) is
+// an escape sequence as it stands.
+func escapeDoubleQuotes(lit string) string {
+	var sb strings.Builder
+	backslashes := 0
+	for i := 0; i < len(lit); i++ {
+		c := lit[i]
+		if c == '"' && backslashes%2 == 0 {
+			sb.WriteByte('\\')
+		}
+		if c == '\\' {
+			backslashes++
+		} else {
+			backslashes = 0
+		}
+		sb.WriteByte(c)
+	}
+	return sb.String()
 }
 
 func (r *Resolver) onEnum(g *Scope, name string, t *parser.Type, v *parser.ConstValue) (string, error) {
